@@ -229,6 +229,43 @@ def keeps_extends(tree):
     raise TranslateError('_get_type_info: "if extends is None" not found')
 
 
+def memberless_base(tree):
+    """_get_type_info: when does a Python base become __extends__ of a class statement?  True: when it
+    has members of its own or itself extends a class; False: only when it has members of its own"""
+    fn = find(tree.body, ast.FunctionDef, '_get_type_info', 'complex.py')
+    hits = []
+    for n in ast.walk(fn):
+        if isinstance(n, ast.If):
+            for st in n.body:
+                if isinstance(st, ast.Assign) and len(st.targets) == 2 and isinstance(st.targets[0], ast.Name) \
+                        and st.targets[0].id == 'extends' and isinstance(st.value, ast.Name) and st.value.id == 'b':
+                    hits.append(n)
+    if len(hits) != 1:
+        raise TranslateError('_get_type_info: %d statements "extends = cls_dict[...] = b"' % len(hits))
+    t = hits[0].test
+    def has_members(x):
+        return isinstance(x, ast.Compare) and isinstance(x.left, ast.Call) and isinstance(x.left.func, ast.Name) \
+            and x.left.func.id == 'len' and len(x.ops) == 1 and isinstance(x.ops[0], ast.Gt) \
+            and isinstance(x.comparators[0], ast.Constant) and x.comparators[0].value == 0
+    def is_sub(x):
+        return isinstance(x, ast.Call) and isinstance(x.func, ast.Name) and x.func.id == 'issubclass'
+    def extends_set(x):
+        return isinstance(x, ast.Compare) and isinstance(x.left, ast.Call) and isinstance(x.left.func, ast.Name) \
+            and x.left.func.id == 'getattr' and len(x.left.args) == 3 and isinstance(x.left.args[0], ast.Name) \
+            and x.left.args[0].id == 'b' and isinstance(x.left.args[1], ast.Constant) and x.left.args[1].value == '__extends__' \
+            and isinstance(x.left.args[2], ast.Constant) and x.left.args[2].value is None \
+            and len(x.ops) == 1 and isinstance(x.ops[0], ast.IsNot) \
+            and isinstance(x.comparators[0], ast.Constant) and x.comparators[0].value is None
+    if isinstance(t, ast.BoolOp) and isinstance(t.op, ast.And) and len(t.values) == 2 and is_sub(t.values[1]):
+        a = t.values[0]
+        if has_members(a):
+            return False
+        if isinstance(a, ast.BoolOp) and isinstance(a.op, ast.Or) and len(a.values) == 2 and has_members(a.values[0]) \
+                and extends_set(a.values[1]):
+            return True
+    raise TranslateError('_get_type_info: unrecognised condition for taking a base class as __extends__')
+
+
 def propagation(cmb):
     res = []
     for meth, impl, tov in (('append_field', '_append_field_impl', '_append_to_variants'),
@@ -422,6 +459,8 @@ def generate(repo):
     t.append('Definition subclass_resets_variants : bool := %s.' % gbool(subclass_reset(meta)))
     t.append('(* _get_type_info leaves __extends__ of a customized class alone *)')
     t.append('Definition customized_keeps_extends : bool := %s.' % gbool(keeps_extends(cx)))
+    t.append('(* _get_type_info: a base class with members of its own, or that itself extends a class, becomes __extends__ *)')
+    t.append('Definition memberless_base_kept : bool := %s.' % gbool(memberless_base(cx)))
     t.append('(* _get_flat_type_info: the parent first, then the own fields *)')
     t.append('Definition flat_parent_first : bool := %s.' % gbool(flat_order(cx)))
     t.append('(* append_field / insert_field: the class, then every registered variant *)')
